@@ -251,7 +251,12 @@ def get_arg_ctx_ast(
     """
     Gets the arg context based on the AST.
     """
-    arg_sig = inspect.signature(f)
+    try:
+        arg_sig = inspect.signature(f)
+    except ValueError:
+        # A class whose constructor is the one of a builtin type (a subclass of dict or of an
+        # exception class for instance) has no signature that can be read: no parameter is known.
+        return OrderedDict()
     num_args = len(args)
     # _logger.debug(f"get_arg_ctx: {f}: arg_sig={arg_sig} args={args}")
     args_hashes: List[Tuple[ArgName, Optional[PyHash]]] = []
